@@ -5,5 +5,5 @@ From C09 Require Import ModelLk Model Model4 ModelT.
 Extraction "c09_model.ml" conv_anchor
   M_encode12 M_decode12 S_lookup12 M_segs12
   S_lookup4 M_edges M_emit4 path_ok M_decode4 M_edge_to M_edge_len emit4_size
-  M_decode_table M_decode_table_bytes M_encode_table M_get M_get_sub M_getbest M_installcmap_keys
+  M_decode_table M_decode_table_bytes M_encode_table M_get M_get_sub M_get_sub2 M_getbest M_installcmap_keys
   M_decode0 M_lookup0 M_encode0 S_lookup0 M_decode6 S_lookup6 M_lookup4.
